@@ -123,8 +123,11 @@ CLAIMS = {
        "SOUNDNESS (a raised death exception belongs to a registration whose string occurs in the data since its registration), scoping "
        "of with_death_string, and for EVERY operation sequence the Spec's monitor accepts the model's trace. The monitor is evaluated "
        "on the real Channel for generated cases (all read methods, nested registrations, reading continued after a death).",
-  note="death strings non-empty; regex death strings from the modelled subset without anchors and not matching the empty string "
-       "(counterexamples for the excluded shapes are proved in the file).",
+  note="partial: death strings non-empty; regex death strings from the modelled subset without anchors or look-around assertions "
+       "and not matching the empty string (counterexamples for the excluded shapes are proved in the file). For death strings "
+       "with a look-around assertion the statement is FALSE of the code and of its model (C05Look.one_piece_violates_spec, "
+       "split_noticed: the same stream is missed or noticed depending on the fragmentation): known finding "
+       "KF-C05-lookaround-death-string, witness corpus/C05/kf_lookaround_death.case.",
   ref="DESIGN.md section 4 C05"),
  "C06": dict(
   text="Theorems C06.op_spec / case_spec (+ read_deadline, send_deadline, rut_exact, no_timeout_op …): for every state and every "
